@@ -32,7 +32,7 @@ import numpy as np
 
 from ptverif import export, progspace, runprog, tlc
 from ptverif import replay as rp
-from ptverif.common import NCPU, MachineryError, Run, seed
+from ptverif.common import NCPU, MachineryError, Run, robust_map, seed
 
 PROP = "C01"
 
@@ -205,6 +205,14 @@ def _run_many(progs: list[dict]) -> list[dict]:
     return out
 
 
+def _crashed(prog: dict, reason: str) -> dict:
+    """Executing the generated kernel killed (or hung) the worker process."""
+    return {"id": prog["id"], "status": "ok", "kernel": None, "compared": 0,
+            "ops": sorted({c["op"] for c in prog["calls"]}),
+            "problems": [{"clause": "execution_crashed", "exc": "",
+                          "what": f"the generated code crashed the process: {reason}"}]}
+
+
 def check_kernels(run: Run, kernels: list[dict], by_id: dict) -> None:
     """M: all instruction orders of every kernel (batched TLC runs)."""
     import json
@@ -251,11 +259,7 @@ def check_kernels(run: Run, kernels: list[dict], by_id: dict) -> None:
 def main(tier: str, only: list[dict] | None = None) -> int:
     run = Run(PROP, tier, "exploration")
     progs = only if only is not None else programs(tier)
-    n = NCPU * 4
-    with mp.Pool(NCPU) as pool:
-        results = [r for chunk in pool.map(_run_many,
-                                           [progs[i::n] for i in range(n) if progs[i::n]])
-                   for r in chunk]
+    results = robust_map(_run_many, progs, crashed=_crashed)
     by_id = {p["id"]: p for p in progs}
     status: dict[str, int] = {}
     ops: dict[str, int] = {}
